@@ -16,4 +16,9 @@ for p in sorted(glob.glob('/verif/seeded/*/meta.json')):
     conf='yes' if all(m['confirmed'].values()) else 'NO'
     first=m.get('checks_first_run',m.get('checks',[]))
     now=m.get('checks',[]) if 'checks_first_run' in m else []
-    print('| '+' | '.join([m['seed'],m['breaks_property'],m['needs_to_manifest'],conf,summ(first),summ(now) if now else 'unchanged'])+' |')
+    after=summ(now) if now else 'unchanged'
+    if m.get('check_extended_before_first_run'):
+        first=None
+    if m.get('superseded_by_fix'):
+        after='no longer a breaking change after fix '+m['superseded_by_fix']+' (its demonstration passes on the fixed tree)'
+    print('| '+' | '.join([m['seed'],m['breaks_property'],m['needs_to_manifest'].replace('|','/'),conf,(summ(first) if first is not None else 'not measured: the check was extended for this mechanism from the sub-agent report before the change was run'),(after if first is not None else summ(m.get('checks',[])))])+' |')
